@@ -23,6 +23,7 @@ from liquid2.builtin import parse_primitive
 from liquid2.builtin import parse_string_or_identifier
 from liquid2.exceptions import LiquidSyntaxError
 from liquid2.exceptions import TemplateNotFoundError
+from liquid2.unescape import quote_identifier
 
 from .for_tag import ForLoop
 
@@ -69,7 +70,7 @@ class RenderNode(Node):
                 var = f" with {self.var}"
 
         if self.alias:
-            var += f" as {self.alias}"
+            var += f" as {quote_identifier(self.alias)}"
         if self.args:
             var += ","
         args = " " + ", ".join(str(arg) for arg in self.args) if self.args else ""
